@@ -79,6 +79,12 @@ const (
 //	             Range is [start, max field stop) and may contain holes); position advances by Range.Len
 //	'T' T{…}     TryFieldFormat, error ignored
 //	'S' S{…}     FieldStruct (plain compound, same decoder)   'A' A{…}  FieldArray
+//	'B' B<n>{…}  FieldFormatBitBuf: a NESTED BUFFER of n bits of constant bytes (as after inflate,
+//	             base64 …), decoded by verif_c04 with the items inside; a new buffer root (IsRoot,
+//	             FillGaps:true whatever the context — also inside F/T where FillGaps is false)
+//	'I' I<n>{…}  the same with the nested buffer copied from the next n bits of the input, which
+//	             become a raw leaf (like FieldFormatReaderLen)
+//	'R' R<n>     FieldRootBitBuf: nested buffer of n bits as one root leaf (never gap filled)
 //
 // Positions inside L/F/T are relative to the sub-decode's own buffer.
 type synthItem struct {
@@ -113,6 +119,15 @@ func synthDecode(d *decode.D, items []synthItem) {
 			d.FieldFormat(name, synthGroup, synthIn{Items: it.Sub})
 		case 'T':
 			_, _, _ = d.TryFieldFormat(name, synthGroup, synthIn{Items: it.Sub})
+		case 'B':
+			br := bitio.NewBitReader(hlib.NewRand(uint64(it.Len)+99).Bytes(int((it.Len+7)/8)), it.Len)
+			d.FieldFormatBitBuf(name, br, synthGroup, synthIn{Items: it.Sub})
+		case 'I':
+			raw := d.FieldRawLen(name+"raw", it.Len)
+			br := bitio.NewBitReader(d.ReadAllBits(raw), it.Len)
+			d.FieldFormatBitBuf(name, br, synthGroup, synthIn{Items: it.Sub})
+		case 'R':
+			d.FieldRootBitBuf(name, bitio.NewBitReader(hlib.NewRand(uint64(it.Len)+5).Bytes(int((it.Len+7)/8)), it.Len))
 		case 'S':
 			d.FieldStruct(name, func(d *decode.D) { synthDecode(d, it.Sub) })
 		case 'A':
@@ -175,6 +190,19 @@ func parseSynth(s string) ([]synthItem, string, error) {
 			}
 		case c == 'z':
 			it.Kind, s = c, s[1:]
+		case c == 'B' || c == 'I':
+			it.Kind = c
+			if it.Len, s, ok = parseNum(s[1:]); !ok {
+				return bad()
+			}
+			if it.Sub, ok = parseSub(); !ok {
+				return bad()
+			}
+		case c == 'R':
+			it.Kind = c
+			if it.Len, s, ok = parseNum(s[1:]); !ok {
+				return bad()
+			}
 		case c == 'F' || c == 'T' || c == 'S' || c == 'A':
 			it.Kind, s = c, s[1:]
 			if it.Sub, ok = parseSub(); !ok {
@@ -861,7 +889,7 @@ func mergePart(o *hlib.Out, p string) {
 
 const corpusDir = "~corpus"
 
-var extFormat = map[string]string{".mkv": "matroska", ".cmo3": "caff"}
+var extFormat = map[string]string{".mkv": "matroska", ".cmo3": "caff", ".vorbis_packet": "vorbis_packet"}
 
 func listFiles() map[string][]string {
 	root := filepath.Join(repoDir(), "format")
@@ -1030,6 +1058,10 @@ func fmtSynth(items []synthItem) string {
 			s = fmt.Sprintf("^%d", it.Start)
 		case 'z':
 			s = "z"
+		case 'B', 'I':
+			s = fmt.Sprintf("%c%d{%s}", it.Kind, it.Len, fmtSynth(it.Sub))
+		case 'R':
+			s = fmt.Sprintf("R%d", it.Len)
 		default:
 			s = fmt.Sprintf("%c{%s}", it.Kind, fmtSynth(it.Sub))
 		}
@@ -1083,6 +1115,26 @@ func randScript(r *hlib.Rand, depth int, pos0 int64) (items []synthItem, pos, ma
 	skipLens := []int64{1, 1, 2, 7, 8, 8, 9, 16, 32}
 	n := r.Range(1, 6)
 	for i := 0; i < n; i++ {
+		if depth < 3 && r.Intn(7) == 0 {
+			// nested buffer (at top level and inside F/T sub-formats alike) whose format leaves
+			// holes and, mostly, an unread tail
+			sub, _, subMax := randScript(r, depth+1, 0)
+			nb := subMax
+			if r.Intn(4) != 0 {
+				nb += int64(r.Range(1, 24))
+			}
+			switch r.Intn(5) {
+			case 0:
+				items = append(items, synthItem{Kind: 'R', Len: nb})
+			case 1, 2:
+				items = append(items, synthItem{Kind: 'I', Len: nb, Sub: sub})
+				pos += nb
+				maxStop = max(maxStop, pos)
+			default:
+				items = append(items, synthItem{Kind: 'B', Len: nb, Sub: sub})
+			}
+			continue
+		}
 		switch k := r.Intn(12); {
 		case k < 4:
 			field(int64(r.Range(1, 24)))
@@ -1142,6 +1194,10 @@ func synthJobs(r *hlib.Rand, n int) []job {
 		// sub-format without own gap filling, directly after a field, with a hole inside
 		"40;+8,F{+8,>8,+8},+8", "80;+8,F{+8,>8,+8},F{+8,>8,+8},+8", "56;+8,S{+8,F{+4,F{+4,>8,+4},+4}},+4",
 		"48;+8,T{+8,>16,z,+8},+8", "40;+8,A{F{+8,>8,+8}},+8",
+		// nested buffers whose format leaves a tail / holes: at top level, and inside sub-formats
+		// that are themselves decoded without gap filling (F/T) — the nested buffer is its own root
+		"16;+8,B24{+8},+8", "24;+8,F{+8,B24{+8,>8}},+8", "32;+8,T{+4,I12{+4,>4,+2},+4},+4", "32;+8,S{F{F{+8,B40{+8,>8,+8}}}},+8",
+		"16;+8,F{R16,+8}", "24;F{B16{F{B16{+8}}}},+24",
 		// hole, then a zero-length value where the next field starts, last field ends the buffer
 		"40;+16,>8,z,+16", "64;+16,S{^24,z,z,+8},+32", "48;+8,F{+8,>8,z,+8},z,+16",
 	} {
